@@ -37,14 +37,12 @@ def lookalike_scenarios():
         for order in (0, 1):
             x, y = (a, b) if order == 0 else (b, a)
             fx, fy = (0, 1 if bad else 0) if order == 0 else (1 if bad else 0, 0)
-            # two tasks, one worker: the same process certainly parses both, in this order
+            # consecutive tasks (one worker when the pool has size 1: the same process certainly parses all of them, in
+            # this order) and the two texts as the parts of one behaviour (always one worker)
             k += 1
-            out.append({"id": "like-%d" % k, "names": ["L1", "L2", "L3"], "behaviors": {"L1": [x], "L2": [y], "L3": [x]}, "pool": 1,
-                        "delays": {}, "failat": [fx, fy, fx]})
-            # two parts of one behaviour (always one worker) with a neighbour, two workers
-            k += 1
-            out.append({"id": "like-%d" % k, "names": ["M1", "M2"], "behaviors": {"M1": [x, y], "M2": [y]}, "pool": 2,
-                        "delays": {"2": 0.05}, "failat": [1 if fx else (2 if fy else 0), fy]})
+            out.append({"id": "like-%d" % k, "names": ["L1", "L2", "L3", "M1"],
+                        "behaviors": {"L1": [x], "L2": [y], "L3": [x], "M1": [x, y]}, "pool": 1 + order,
+                        "delays": {"4": 0.05} if order else {}, "failat": [fx, fy, fx, 1 if fx else (2 if fy else 0)]})
     return out
 
 
